@@ -751,7 +751,7 @@ def gen_tail(repo):
     for k, v in consts.items():
         if v >= 2 ** 32:
             raise ExtractError(f"tail.rs: literal {k} = {v} does not fit u32")
-        out.append(f"def {k} : Nat := {v}")
+        out.append(f"abbrev {k} : Nat := {v}")
     out.append("")
 
     # hl_reg: a sequence of range arms, then None
